@@ -9,8 +9,8 @@ import (
 
 // Keys is the shared key alphabet: small, so random documents hit, but covering dot-illegal,
 // escaped, non-ASCII and astral keys.
-var Keys = []string{"a", "b", "c", "d", "aa", "0", "a b", "é", "😀", "a.b", "", "'", "\"", "x\\y", "-", "a\tb", "\n", "é.b", "名 前", "ü-ö$x"}
-var keyWeights = []int{12, 10, 8, 4, 3, 3, 2, 2, 1, 2, 1, 1, 1, 1, 1, 1, 1, 2, 1, 1}
+var Keys = []string{"a", "b", "c", "d", "aa", "0", "a b", "é", "😀", "a.b", "", "'", "\"", "x\\y", "-", "a\tb", "\n", "é.b", "名 前", "ü-ö$x", "ab", "’", "A"}
+var keyWeights = []int{12, 10, 8, 4, 3, 3, 2, 2, 1, 2, 1, 1, 1, 1, 1, 1, 1, 2, 1, 1, 2, 1, 1}
 
 var keyGen = weighted(Keys, keyWeights)
 
@@ -39,19 +39,21 @@ type PathOpts struct {
 	MinSteps       int
 	FuncPct        int  // chance of each trailing function on the main path (default 45)
 	OperandFuncPct int  // chance of a function on an operand path (default 12)
+	LongPaths      bool // 3 % of the paths have 6..16 steps
 	ReuseFuncs     bool // a function name may occur several times in one path (default: each name once, so that a name identifies an occurrence)
 }
 
 // G is a generation context: it hands out each function name at most once per case so
 // that a function name identifies one occurrence in the path.
 type G struct {
-	T       *rapid.T
-	O       PathOpts
-	filters []string
-	aggs    []string
-	DocKind string // how the last document was drawn: directed | perturbed | free
-	recs    int    // recursive-descent steps handed out so far (whole path incl. operands)
-	depth   int    // current operand nesting
+	T        *rapid.T
+	O        PathOpts
+	filters  []string
+	aggs     []string
+	DocKind  string // how the last document was drawn: directed | perturbed | free
+	recs     int    // recursive-descent steps handed out so far (whole path incl. operands)
+	depth    int    // current operand nesting
+	deepUsed bool   // a deep spine (Deep) has been handed out for this case
 }
 
 // Evaluation cost is polynomial in the document size with one degree per recursive descent
@@ -295,8 +297,24 @@ func (g *G) funcs(steps []Step, max int, pct int) []Step {
 func (g *G) Path() *Path {
 	p := &Path{Root: RootDollar}
 	n := g.O.MinSteps + g.intn("nsteps", g.O.MaxSteps-g.O.MinSteps+1)
+	long := false
+	if g.O.LongPaths && g.chance("longpath", 3) {
+		// a path far beyond the usual five steps; at most three of its steps may multiply the
+		// number of selected values (multi-name, union), the others select at most what the
+		// document holds, so that the result stays bounded by the document size
+		n = 6 + g.intn("longsteps", 11)
+		long = true
+	}
+	fan := 0
 	for i := 0; i < n; i++ {
-		p.Steps = append(p.Steps, g.Step(g.O.FilterDepth, true, false))
+		st := g.Step(g.O.FilterDepth, true, false)
+		if long && (st.Kind == KMulti || st.Kind == KUnion) {
+			fan++
+			if fan > 3 {
+				st = g.Step(g.O.FilterDepth, false, false)
+			}
+		}
+		p.Steps = append(p.Steps, st)
 	}
 	if g.O.Funcs {
 		pct := g.O.FuncPct
@@ -362,8 +380,8 @@ func (g *G) OperandPath(filterDepth int, group bool) *Path {
 }
 
 var numLits = []string{"0", "1", "2", "-1", "1.5", "10", "1e2", "2.0", "+1", "-0.5", "100", "3"}
-var strLits = []string{"a", "b", "", "1", "a b", "é", "it's", "say \"hi\"", "x\\y", "true", "null"}
-var regexes = []string{"a", "^a", "b$", "[ab]+", "(?i)A", "a|b", ".", "a/b", `\d+`, "^$", "é", `\\`, "^(a b|1)$"}
+var strLits = []string{"a", "b", "", "1", "a b", "é", "it's", "say \"hi\"", "x\\y", "true", "null", "ab", "it’s"}
+var regexes = []string{"a", "^a", "b$", "[ab]+", "(?i)A", "a|b", ".", "a/b", `\d+`, "^$", "é", `\\`, "^(a b|1)$", "a b", "ab", "^", "$", "a $"}
 
 // Literal draws a literal operand; numeric restricts it to numbers.
 func (g *G) Literal(numeric bool) *Operand {
